@@ -83,8 +83,8 @@ MUTANTS = [
      "        ).transform(fcp_ast)\n    except VisitError as e:\n        return _visit_error(filename, e)\n    except RecursionError:",
      "        ).transform(fcp_ast)\n    except ZeroDivisionError as e:\n        return _visit_error(filename, e)\n    except RecursionError:"),
     ("C11", "revert_recursion_catch", "src/fcp/parser.py",
-     "    except UnexpectedInput as e:\n        return _lark_error(logger, filename, source, e)\n    except RecursionError:\n",
-     "    except UnexpectedInput as e:\n        return _lark_error(logger, filename, source, e)\n    except ZeroDivisionError:\n"),
+     "        return _visit_error(filename, e)\n    except RecursionError:\n        return error(f\"{filename.name} is nested too deeply\")\n\n    return Ok(fcp.attempt())",
+     "        return _visit_error(filename, e)\n    except ZeroDivisionError:\n        return error(f\"{filename.name} is nested too deeply\")\n\n    return Ok(fcp.attempt())"),
     ("C11", "eof_line_minus_1", "src/fcp/parser.py",
      '    line = e.line if e.line > 0 else len(source.split("\\n"))', "    line = e.line"),
     ("C11", "log_node_off_by_one", "src/fcp/error.py",
